@@ -61,6 +61,10 @@ func sweepValues(r *simrt.Rng, a model.AxisDesc, sa *model.SubAnalog, n int) []i
 }
 
 func genC06(c *w1Case, r *simrt.Rng, thorough bool) {
+	if r.Chance(0.1) {
+		genTwinAxes(c, r, []string{"cc", "cc2", "pitch_bend"})
+		return
+	}
 	kinds := [][]string{{"cc"}, {"cc2"}, {"pitch_bend"}, {"cc", "cc2", "pitch_bend"}}[r.Intn(4)]
 	o := genOpts{nKeys: [2]int{1, 2}, nMaps: [2]int{1, 2}, notePool: []int{60}, actions: []string{"channel_up", "channel_down", "mapping_up", "mapping_down"}, exitLen: -1,
 		defaults: r.Chance(0.5), axes: r.Range(1, 3), axisKinds: kinds, handlers: 1}
@@ -146,6 +150,10 @@ func shareRanges(d *model.Desc) {
 }
 
 func genC07(c *w1Case, r *simrt.Rng) {
+	if r.Chance(0.15) {
+		genTwinAxes(c, r, []string{"cc2"})
+		return
+	}
 	o := genOpts{nKeys: [2]int{1, 2}, nMaps: [2]int{1, 1}, notePool: []int{60}, actions: []string{"cc_learning"}, exitLen: -1,
 		defaults: r.Chance(0.5), axes: r.Range(1, 3), axisKinds: []string{"cc2"}, handlers: 1}
 	c.d = baseDesc(r, o)
@@ -352,5 +360,77 @@ func genC05(c *w1Case, r *simrt.Rng) {
 		}
 	}
 	g.releaseAll()
+	c.script = g.out
+}
+
+// genTwinAxes: one logical device whose two sub-handlers report the *same* axis code with different ranges
+// (the shipped PS4 configuration maps ABS_X of the sticks, 0..255, and ABS_X of the touchpad, 0..1919), both
+// mapped to controllers. Positions are drawn from a small set per axis so that equal shaped values on the two
+// axes are common.
+func genTwinAxes(c *w1Case, r *simrt.Rng, kinds []string) {
+	o := genOpts{nKeys: [2]int{1, 2}, nMaps: [2]int{1, 1}, notePool: []int{60}, actions: []string{"cc_learning"}, exitLen: -1, defaults: r.Chance(0.5), handlers: 2}
+	c.d = baseDesc(r, o)
+	name := stickAxes[r.Intn(4)]
+	var twins []model.AxisDesc
+	ccs := r.Perm(120)
+	ranges := [][2]int32{{0, 255}, {0, 1919}, {-128, 127}, {-32768, 32767}, {0, 65535}, {-127, 127}}
+	p := r.Perm(len(ranges))
+	var subs []model.SubAnalog
+	for hi := 0; hi < 2; hi++ {
+		a := drawAxis(r, name, kinds[r.Intn(len(kinds))], hi)
+		a.Min, a.Max = ranges[p[hi]][0], ranges[p[hi]][1]
+		if r.Chance(0.5) {
+			// or the same range on both, so that equal positions give equal shaped values
+			a.Min, a.Max = ranges[p[0]][0], ranges[p[0]][1]
+		}
+		if a.Min != 0 {
+			a.DZCenter = false
+		}
+		if a.CC != nil {
+			a.CC = ip(ccs[hi*2])
+		}
+		if a.CCNeg != nil {
+			a.CCNeg = ip(ccs[hi*2+1])
+		}
+		twins = append(twins, a)
+		sa := model.SubAnalog{Sub: c.d.Handlers[hi], Axes: []model.AxisDesc{a}}
+		if r.Chance(0.5) {
+			sa.DefaultDZ = fp([]float64{0, 0.1, 0.25}[r.Intn(3)])
+		}
+		subs = append(subs, sa)
+	}
+	c.d.Mappings[0].Analog = subs
+	g := newScriptGen(r, c.d)
+	n := r.Range(10, 60)
+	for i := 0; i < n; i++ {
+		hi := r.Intn(2)
+		a := twins[hi]
+		mid := int32(0)
+		if a.Min == 0 {
+			mid = (a.Max + 1) / 2
+		}
+		var v int32
+		switch r.Intn(6) {
+		case 0:
+			v = a.Min
+		case 1:
+			v = a.Max
+		case 2:
+			v = mid
+		case 3:
+			v = a.Min + (a.Max-a.Min)/4
+		case 4:
+			v = a.Max - (a.Max-a.Min)/4
+		default:
+			v = a.Min + int32(r.Intn(int(a.Max-a.Min)+1))
+		}
+		if model.NearDeadzoneEdge(&a, &c.d.Mappings[0].Analog[hi], v) {
+			continue
+		}
+		if s, cn, _, ok := model.Shape(&a, &c.d.Mappings[0].Analog[hi], v); ok && model.NearThreshold(model.Flipped(&a, s, cn), cn) {
+			continue
+		}
+		g.out = append(g.out, model.Event{Kind: "abs", Handler: hi, Code: a.Code, Value: v})
+	}
 	c.script = g.out
 }
